@@ -1,7 +1,7 @@
 (* Dispatch: the three entry points the driver and the in-Coq cross-check use. *)
 From Coq Require Import String.
 From Coq Require Import List NArith ZArith Bool.
-From Verif Require Import GoStr GoNum GoHeader Sx Tables Route Forward Serve Wire Unit Monitors HistMon.
+From Verif Require Import GoStr GoNum GoHeader Sx Tables Route Forward Serve Wire Unit Monitors HistMon LimMon.
 Import ListNotations.
 Open Scope N_scope.
 
@@ -14,6 +14,7 @@ Definition run (x : sx) : sx :=
   else if str_eqb fam (bytes "copy") then run_copy x
   else if str_eqb fam (bytes "unit") then run_unit x
   else if str_eqb fam (bytes "cache") then run_cache x
+  else if str_eqb fam (bytes "lim") then run_lim x
   else L [A (bytes "unknown-family")].
 
 Definition proj (x o : sx) : sx :=
@@ -36,6 +37,8 @@ Definition spec (prop : str) (x o : sx) : sx :=
      else v_ok)
   else if str_eqb fam (bytes "copy") then
     (if str_eqb prop (bytes "C20") then mon_C20 x o else v_ok)
+  else if str_eqb fam (bytes "lim") then
+    (if str_eqb prop (bytes "C16") then mon_C16 x o else if str_eqb prop (bytes "C17") then mon_C17 x o else v_ok)
   else if str_eqb fam (bytes "route") then
     (if str_eqb prop (bytes "C01") then mon_C01 x o
      else if str_eqb prop (bytes "C02") then mon_C02 x o
